@@ -81,8 +81,7 @@ def registry(model, R):
     R.check(bool(nm) and src(nm[0].value) == "tools.snakify(name, sep='-')", 'REGISTRY', meta_init, nm[0] if nm else meta_init.node,
             'default format name is the hyphenated class name', "tools.snakify(name, sep='-')", src(nm[0].value) if nm else '')
     gi = model.func('formats.base.FormatMeta.__getitem__')
-    r = [src(n.value) for n in walk(gi.body) if isinstance(n, ast.Return)]
-    R.check(r == [f'self._map[{gi.params[1]}.lower()]'], 'REGISTRY', gi, gi.node, 'format lookup lower-cases the name', 'self._map[name.lower()]', str(r))
+    R.returns(gi, f'self._map[{gi.params[1]}.lower()]', 'REGISTRY', 'format lookup lower-cases the name')
     inf = model.func('formats.base.FormatMeta.infer_format')
     r = [src(n.value) for n in walk(inf.body) if isinstance(n, ast.Return)]
     sp = [s for s in inf.body if isinstance(s, ast.Assign) and 'splitext' in src(s.value)]
@@ -92,9 +91,9 @@ def registry(model, R):
     R.check(all('ValueError' in src(x.exc) for x in raises) and raises, 'REGISTRY', inf, inf.node, 'unknown suffix raises ValueError', 'raise ValueError(...)')
     # load() -> fromfile(frmat=None) -> inference
     ld = model.func('__init__.load')
-    r = [src(n.value) for n in walk(ld.body) if isinstance(n, ast.Return)]
-    R.check(r == [f'Context.fromfile({ld.params[0]}, {ld.params[2]}, {ld.params[1]})'] and const(ld.defaults().get(ld.params[2]), 'x') is None,
-            'REGISTRY', ld, ld.node, 'load() passes frmat (default None = infer) and encoding on', 'Context.fromfile(filename, frmat, encoding)', str(r))
+    R.returns(ld, f'Context.fromfile({ld.params[0]}, {ld.params[2]}, {ld.params[1]})', 'REGISTRY', 'load() passes frmat and encoding on')
+    R.check(const(ld.defaults().get(ld.params[2]), 'x') is None, 'API-DEFAULT', ld, ld.node, 'load(frmat) default None (= infer from the suffix)', 'None',
+            src(ld.defaults().get(ld.params[2])))
     ff = model.func('contexts.Data.fromfile')
     g = [s for s in ff.body if isinstance(s, ast.If) and is_none_test(s.test) == (ff.params[2], True)]
     ok = bool(g) and src(g[0].body[0]) == f'{ff.params[2]} = formats.Format.infer_format({ff.params[1]})'
@@ -112,9 +111,9 @@ def registry(model, R):
     calls = [n for n in walk(fs.body) if isinstance(n, ast.Call) and isinstance(n.func, ast.Attribute) and n.func.attr == 'loads']
     R.check(len(calls) == 1 and src(calls[0].args[0]) == fs.params[1], 'PARAMS', fs, fs.node, 'fromstring parses the given source', 'frmat.loads(source, **kwargs)')
     for f, last in ((fs, 'args'), (ff, 'args')):
-        r = [src(n.value) for n in f.body if isinstance(n, ast.Return)]
-        R.check(r == [f'{f.params[0]}(args.objects, args.properties, args.bools)'], 'PARAMS', f, f.node, f'{f.name}: context built from the parsed triple',
-                'cls(args.objects, args.properties, args.bools)', str(r))
+        last = [n for n in f.body if isinstance(n, ast.Return)]
+        R.expr(last[-1].value if last else None, f'{f.params[0]}(args.objects, args.properties, args.bools)', 'PARAMS', f,
+               f'{f.name}: context built from the parsed triple', at=last[-1] if last else f.node)
     # defaults
     for key, param, want in (('contexts.Data.fromstring', 'frmat', 'table'), ('contexts.Data.fromfile', 'frmat', 'cxt'), ('contexts.ExportableMixin.tofile', 'frmat', 'cxt'),
                              ('contexts.FormattingMixin.tostring', 'frmat', 'table'), ('definitions.Triple.fromfile', 'frmat', 'cxt'),
@@ -126,8 +125,7 @@ def registry(model, R):
                       ('__init__.load_csv', "Context.fromfile(filename, 'csv', encoding, dialect=dialect)"),
                       ('__init__.make_context', 'Context.fromstring(source, frmat=frmat)')):
         f = model.func(key)
-        r = [src(n.value) for n in walk(f.body) if isinstance(n, ast.Return)]
-        R.check(r == [want], 'PARAMS', f, f.node, f'{f.name} routes to the named format with the caller\'s arguments', want, str(r))
+        R.returns(f, want, 'PARAMS', f'{f.name} routes to the named format with the caller\'s arguments')
     df = model.func('definitions.Triple.fromfile')
     calls = [n for n in walk(df.body) if isinstance(n, ast.Call) and isinstance(n.func, ast.Attribute) and n.func.attr == 'load']
     ok = len(calls) == 1 and [src(a) for a in calls[0].args[:2]] == [df.params[1], df.params[3]]
@@ -151,17 +149,25 @@ def param_clobber(model, R):
             found = src(par)[:80] if par is not None else src(a)
             good = (isinstance(par, ast.If) and a in par.body and is_none_test(par.test) == (param, True) and src(a.value) == dflt)
             ok = ok and good
-        R.check(ok and len(assigns) == 1, 'PARAM-CLOBBER', f, assigns[0] if assigns else f.node,
-                f'{f.name}: the caller\'s {param} is replaced by the class default only when it is None',
-                f'if {param} is None: {param} = {dflt}', found,
-                extra={'consequence': f'an explicitly given {param} would be ignored (and None passed on when none is given)'})
+        # recognised: a single assignment of the class default under an If on "<param> is None" in some polarity
+        recognised = (len(assigns) == 1 and isinstance(parents.get(assigns[0]), ast.If) and is_none_test(parents[assigns[0]].test) is not None
+                      and is_none_test(parents[assigns[0]].test)[0] == param)
+        if ok and len(assigns) == 1:
+            R.ok('PARAM-CLOBBER', f, assigns[0], f'{f.name}: the caller\'s {param} is replaced by the class default only when it is None')
+        elif recognised or not assigns:
+            R.bad('PARAM-CLOBBER', f, assigns[0] if assigns else f.node, f'{f.name}: the caller\'s {param} is replaced by the class default only when it is None',
+                  f'if {param} is None: {param} = {dflt}', found,
+                  extra={'consequence': f'an explicitly given {param} would be ignored (and None passed on when none is given)'})
+        else:
+            R.unknown('PARAM-CLOBBER', f, assigns[0], f'{f.name}: handling of {param}', found)
         # reaches the consumer
         if param == 'encoding':
             opens = [n for n in walk(f.body) if isinstance(n, ast.Call) and name_is(n.func, 'open')]
             ok = len(opens) == 1 and any(k.arg == 'encoding' and name_is(k.value, param) for k in opens[0].keywords)
             nl = len(opens) == 1 and any(k.arg == 'newline' and src(k.value) == 'cls.newline' for k in opens[0].keywords)
             R.check(ok, 'PARAMS', f, opens[0] if opens else f.node, f'{f.name}: file opened with that encoding', 'open(filename, ..., encoding=encoding, ...)')
-            R.check(nl, 'PARAMS', f, opens[0] if opens else f.node, f'{f.name}: file opened with the class newline (same in both directions)', 'newline=cls.newline')
+            R.decided(nl, 'PARAMS', f, opens[0] if opens else f.node, f'{f.name}: file opened with the class newline (same in both directions)',
+                      'newline=cls.newline', src(opens[0]) if opens else 'no open()')
             if f.name == 'dump':
                 R.check(bool(opens) and len(opens[0].args) > 1 and const(opens[0].args[1]) == 'w', 'PARAMS', f, opens[0] if opens else f.node, 'dump opens for writing', "'w'")
         else:
@@ -233,7 +239,7 @@ def symbol_tables(model, R):
     if '?' in seq:
         R.unknown('LAYOUT', it, it.node, 'cxt layout', f'unclassified header line in {seq}')
     else:
-        R.check(seq == want, 'LAYOUT', it, it.node, 'cxt layout: B, blank, #objects, #properties, blank, object labels, property labels, then rows',
+        R.decided(seq == want, 'LAYOUT', it, it.node, 'cxt layout: B, blank, #objects, #properties, blank, object labels, property labels, then rows',
                 str(want), str(seq))
     rows = [s for s in it.body if isinstance(s, ast.For)]
     ok = False
@@ -370,6 +376,17 @@ def index_exports(model, R):
     ok = ok and bool(loop) and src(loop[0].iter) == f.params[0] and src(ys[0].value.generators[0].iter.args[0]) == src(loop[0].target)
     R.check(ok, 'INDEX-EXPORT', f, f.node, 'FIMI rows: positions of exactly the true cells of each row', '[i for i, value in enumerate(row) if value]',
             src(ys[0].value) if ys else '')
+    # one line per object: the yield inside the row loop is unconditional
+    if loop and len(ys) == 1:
+        direct = any(isinstance(s, ast.Expr) and s.value is ys[0] for s in loop[0].body)
+        guarded = [s for s in loop[0].body if isinstance(s, ast.If) and any(n is ys[0] for n in walk(s.body + s.orelse))]
+        if direct:
+            R.ok('INDEX-EXPORT', f, ys[0], 'FIMI rows: one row per object, also for an object without properties')
+        elif guarded:
+            R.bad('INDEX-EXPORT', f, guarded[0], 'FIMI rows: one row per object, also for an object without properties', 'an unconditional yield per row',
+                  f'yield guarded by {src(guarded[0].test)}', extra={'consequence': 'a skipped row shifts every later line to the wrong object'})
+        else:
+            R.unknown('INDEX-EXPORT', f, f.node, 'FIMI rows: one row per object', 'yield not directly in the row loop')
     d = model.func('formats.fimi.dump_file')
     ok = any(src(n) == 'iter_fimi_rows(bools)' for n in walk(d.body)) and any(
         isinstance(n, ast.Call) and (chain(n.func) or [''])[-1] == 'write_csv_file' and any(k.arg == 'dialect' and src(k.value) == 'FimiDialect' for k in n.keywords)
